@@ -30,17 +30,7 @@ MUTANTS += [
             )
             raise""", """        except BaseException:
             raise""")]),
-    dict(id="c04-restore-only-single", property="C04", edits=[(S, """        _shape_storage.memo_stack[-1] = (
-            single_memo,
-            variadic_memo,
-            pytree_memo,
-            arg_memo,
-        )""", """        _shape_storage.memo_stack[-1] = (
-            single_memo,
-            _shape_storage.memo_stack[-1][1],
-            _shape_storage.memo_stack[-1][2],
-            arg_memo,
-        )""")]),
+    dict(id="c04-restore-only-single", property="C04", edits=[(S, "        for memo, new_memo in zip(_shape_storage.memo_stack[-1], new_memos):", "        for memo, new_memo in list(zip(_shape_storage.memo_stack[-1], new_memos))[:1]:")]),
     dict(id="c04-no-restore-on-false-pytree", property="C04", edits=[(P, """        else:
             set_shape_memo(
                 single_memo_bak, variadic_memo_bak, pytree_memo_bak, arg_memo_bak
@@ -60,4 +50,18 @@ MUTANTS += [
             if type(cls_dim) is _NamedDim and not cls_dim.treepath:
                 single_memo.setdefault(cls_dim.name, 1)""")]),
     dict(id="c02-prevB-nowF-unchecked", property="C02", edits=[(A, "if not broadcastable and broadcast_shape != new_shape:", "if False:")]),
+]
+
+MUTANTS += [
+    # ---- C13
+    dict(id="c13-stale-memos", property="C13", edits=[(S, """        new_memos = (single_memo, variadic_memo, pytree_memo, arg_memo)
+        for memo, new_memo in zip(_shape_storage.memo_stack[-1], new_memos):
+            if memo is not new_memo:
+                memo.clear()
+                memo.update(new_memo)""", """        _shape_storage.memo_stack[-1] = (single_memo, variadic_memo, pytree_memo, arg_memo)""")]),
+    dict(id="c13-blame-first", property="C13", edits=[(D, "            fn(*args, **kwargs)\n        except Exception as e:\n            keep_value", "            fn(*args, **kwargs); raise ValueError()\n        except Exception as e:\n            keep_value")]),
+    dict(id="c13-annot-wrapped", property="C13", edits=[(D, "                except AnnotationError:\n                    raise\n                except Exception:\n                    try:\n                        argmsg", "                except Exception:\n                    try:\n                        argmsg")]),
+    dict(id="c13-stage-swapped", property="C13", edits=[(D, '"Type-check error whilst checking the return value "', '"Type-check error whilst checking the parameters "')]),
+    dict(id="c13-cause-dropped", property="C13", edits=[(D, "raise TypeCheckError(msg) from e", "raise TypeCheckError(msg) from None")]),
+    dict(id="c13-generic-typeerror", property="C13", edits=[(D, "raise TypeCheckError(msg) from e", "raise TypeError(msg) from e")]),
 ]
